@@ -77,217 +77,219 @@ def accepted : List Key := [
   ("external/barnes_hut_sne/quadtree.hpp", "Cell::containsPoint", "$1[1]", 2),  -- point[1]
   ("external/barnes_hut_sne/quadtree.hpp", "QuadTree::QuadTree/2", "$1[0]", 5),  -- mean_Y[0] | max_Y[0] | min_Y[0]
   ("external/barnes_hut_sne/quadtree.hpp", "QuadTree::QuadTree/2", "$1[1]", 5),  -- mean_Y[1] | max_Y[1] | min_Y[1]
-  ("external/barnes_hut_sne/quadtree.hpp", "QuadTree::computeEdgeForces", "$1[$2 + 1]", 1),  -- row_P[n + 1]
-  ("external/barnes_hut_sne/quadtree.hpp", "QuadTree::computeEdgeForces", "$1[$2]", 3),  -- row_P[n] | col_P[i] | val_P[i]
-  ("external/barnes_hut_sne/quadtree.hpp", "QuadTree::computeEdgeForces", "buff[$1]", 5),  -- buff[d]
-  ("external/barnes_hut_sne/quadtree.hpp", "QuadTree::computeEdgeForces", "data[$1 + $2]", 2),  -- data[ind1 + d] | data[ind2 + d]
-  ("external/barnes_hut_sne/quadtree.hpp", "QuadTree::computeNonEdgeForces", "$1[$2]", 1),  -- neg_f[d]
-  ("external/barnes_hut_sne/quadtree.hpp", "QuadTree::computeNonEdgeForces", "buff[$1]", 5),  -- buff[d]
-  ("external/barnes_hut_sne/quadtree.hpp", "QuadTree::computeNonEdgeForces", "center_of_mass[$1]", 1),  -- center_of_mass[d]
-  ("external/barnes_hut_sne/quadtree.hpp", "QuadTree::computeNonEdgeForces", "data[($1 * QT_NO_DIMS)+ $2]", 1),  -- data[ind + d]
+  ("external/barnes_hut_sne/quadtree.hpp", "QuadTree::computeEdgeForces", "$1[% + 1]", 1),  -- row_P[n + 1]
+  ("external/barnes_hut_sne/quadtree.hpp", "QuadTree::computeEdgeForces", "$1[%]", 3),  -- row_P[n] | col_P[i] | val_P[i]
+  ("external/barnes_hut_sne/quadtree.hpp", "QuadTree::computeEdgeForces", "buff[%]", 5),  -- buff[d]
+  ("external/barnes_hut_sne/quadtree.hpp", "QuadTree::computeEdgeForces", "data[$1 + %]", 2),  -- data[ind1 + d] | data[ind2 + d]
+  ("external/barnes_hut_sne/quadtree.hpp", "QuadTree::computeNonEdgeForces", "$1[%]", 1),  -- neg_f[d]
+  ("external/barnes_hut_sne/quadtree.hpp", "QuadTree::computeNonEdgeForces", "buff[%]", 5),  -- buff[d]
+  ("external/barnes_hut_sne/quadtree.hpp", "QuadTree::computeNonEdgeForces", "center_of_mass[%]", 1),  -- center_of_mass[d]
+  ("external/barnes_hut_sne/quadtree.hpp", "QuadTree::computeNonEdgeForces", "data[($1 * QT_NO_DIMS)+ %]", 1),  -- data[ind + d]
   ("external/barnes_hut_sne/quadtree.hpp", "QuadTree::computeNonEdgeForces", "index[0]", 1),  -- index[0]
-  ("external/barnes_hut_sne/quadtree.hpp", "QuadTree::getAllIndices/2", "$1[$2 + $3]", 1),  -- indices[loc + i]
-  ("external/barnes_hut_sne/quadtree.hpp", "QuadTree::getAllIndices/2", "index[$1]", 1),  -- index[i]
-  ("external/barnes_hut_sne/quadtree.hpp", "QuadTree::init", "center_of_mass[$1]", 1),  -- center_of_mass[i]
-  ("external/barnes_hut_sne/quadtree.hpp", "QuadTree::insert", "$1[$2]", 2),  -- point[d]
-  ("external/barnes_hut_sne/quadtree.hpp", "QuadTree::insert", "center_of_mass[$1]", 2),  -- center_of_mass[d]
-  ("external/barnes_hut_sne/quadtree.hpp", "QuadTree::insert", "data[index[$1]* QT_NO_DIMS + $2]", 1),  -- data[index[n]* QT_NO_DIMS + d]
-  ("external/barnes_hut_sne/quadtree.hpp", "QuadTree::insert", "index[$1]", 1),  -- index[n]
+  ("external/barnes_hut_sne/quadtree.hpp", "QuadTree::getAllIndices/2", "$1[$2 + %]", 1),  -- indices[loc + i]
+  ("external/barnes_hut_sne/quadtree.hpp", "QuadTree::getAllIndices/2", "index[%]", 1),  -- index[i]
+  ("external/barnes_hut_sne/quadtree.hpp", "QuadTree::init", "center_of_mass[%]", 1),  -- center_of_mass[i]
+  ("external/barnes_hut_sne/quadtree.hpp", "QuadTree::insert", "$1[%]", 2),  -- point[d]
+  ("external/barnes_hut_sne/quadtree.hpp", "QuadTree::insert", "center_of_mass[%]", 2),  -- center_of_mass[d]
+  ("external/barnes_hut_sne/quadtree.hpp", "QuadTree::insert", "data[index[%]* QT_NO_DIMS + %]", 1),  -- data[index[n]* QT_NO_DIMS + d]
+  ("external/barnes_hut_sne/quadtree.hpp", "QuadTree::insert", "index[%]", 1),  -- index[n]
   ("external/barnes_hut_sne/quadtree.hpp", "QuadTree::insert", "index[size]", 1),  -- index[size]
-  ("external/barnes_hut_sne/quadtree.hpp", "QuadTree::insert", "multiplicity[$1]", 1),  -- multiplicity[n]
+  ("external/barnes_hut_sne/quadtree.hpp", "QuadTree::insert", "multiplicity[%]", 1),  -- multiplicity[n]
   ("external/barnes_hut_sne/quadtree.hpp", "QuadTree::insert", "multiplicity[size]", 1),  -- multiplicity[size]
-  ("external/barnes_hut_sne/quadtree.hpp", "QuadTree::isCorrect", "index[$1]", 1),  -- index[n]
-  ("external/barnes_hut_sne/quadtree.hpp", "QuadTree::print", "$1[$2]", 1),  -- point[d]
-  ("external/barnes_hut_sne/quadtree.hpp", "QuadTree::print", "center_of_mass[$1]", 1),  -- center_of_mass[d]
-  ("external/barnes_hut_sne/quadtree.hpp", "QuadTree::print", "index[$1]", 2),  -- index[i]
-  ("external/barnes_hut_sne/quadtree.hpp", "QuadTree::subdivide", "index[$1]", 5),  -- index[i]
-  ("external/barnes_hut_sne/quadtree.hpp", "QuadTree::subdivide", "multiplicity[$1]", 1),  -- multiplicity[i]
-  ("external/barnes_hut_sne/tsne.hpp", "TSNE::computeExactGradient", "$1[$2 * $3 + $4]", 9),  -- Q[n * N + m] | DD[n * N + m] | P[n * N + m] | dC[n * D + d] | Y[n * D + d] | Y[m * D + d]
-  ("external/barnes_hut_sne/tsne.hpp", "TSNE::computeExactGradient", "$1[$2]", 1),  -- dC[i]
-  ("external/barnes_hut_sne/tsne.hpp", "TSNE::computeGaussianPerplexity/5", "$1[$2 * $3 + $2]", 1),  -- P[n * N + n]
-  ("external/barnes_hut_sne/tsne.hpp", "TSNE::computeGaussianPerplexity/5", "$1[$2 * $3 + $4]", 8),  -- DD[n * N + m] | P[n * N + m]
-  ("external/barnes_hut_sne/tsne.hpp", "TSNE::computeGaussianPerplexity/8", "$1[$2 * $3 + $4]", 4),  -- X[n * D + d] | X[m * D + d]
-  ("external/barnes_hut_sne/tsne.hpp", "TSNE::computeGaussianPerplexity/8", "$1[$2 + 1]", 3),  -- row_P[n + 1] | indices[m + 1]
-  ("external/barnes_hut_sne/tsne.hpp", "TSNE::computeGaussianPerplexity/8", "$1[$2[$3]+ $4]", 2),  -- col_P[row_P[n]+ m] | val_P[row_P[n]+ m]
-  ("external/barnes_hut_sne/tsne.hpp", "TSNE::computeGaussianPerplexity/8", "$1[$2]", 12),  -- row_P[n] | obj_X[n] | distances[m] | indices[m] | col_P[count] | val_P[count]
+  ("external/barnes_hut_sne/quadtree.hpp", "QuadTree::isCorrect", "index[%]", 1),  -- index[n]
+  ("external/barnes_hut_sne/quadtree.hpp", "QuadTree::print", "$1[%]", 1),  -- point[d]
+  ("external/barnes_hut_sne/quadtree.hpp", "QuadTree::print", "center_of_mass[%]", 1),  -- center_of_mass[d]
+  ("external/barnes_hut_sne/quadtree.hpp", "QuadTree::print", "index[%]", 2),  -- index[i]
+  ("external/barnes_hut_sne/quadtree.hpp", "QuadTree::subdivide", "index[%]", 5),  -- index[i]
+  ("external/barnes_hut_sne/quadtree.hpp", "QuadTree::subdivide", "multiplicity[%]", 1),  -- multiplicity[i]
+  ("external/barnes_hut_sne/tsne.hpp", "TSNE::computeExactGradient", "$1[% * $2 + %]", 9),  -- Q[n * N + m] | DD[n * N + m] | P[n * N + m] | dC[n * D + d] | Y[n * D + d] | Y[m * D + d]
+  ("external/barnes_hut_sne/tsne.hpp", "TSNE::computeExactGradient", "$1[%]", 1),  -- dC[i]
+  ("external/barnes_hut_sne/tsne.hpp", "TSNE::computeGaussianPerplexity/5", "$1[% * $2 + %]", 9),  -- DD[n * N + m] | P[n * N + m] | P[n * N + n]
+  ("external/barnes_hut_sne/tsne.hpp", "TSNE::computeGaussianPerplexity/8", "$1[$2[%]+ %]", 2),  -- col_P[row_P[n]+ m] | val_P[row_P[n]+ m]
+  ("external/barnes_hut_sne/tsne.hpp", "TSNE::computeGaussianPerplexity/8", "$1[$2]", 2),  -- col_P[count] | val_P[count]
+  ("external/barnes_hut_sne/tsne.hpp", "TSNE::computeGaussianPerplexity/8", "$1[% * $2 + %]", 4),  -- X[n * D + d] | X[m * D + d]
+  ("external/barnes_hut_sne/tsne.hpp", "TSNE::computeGaussianPerplexity/8", "$1[% + 1]", 3),  -- row_P[n + 1] | indices[m + 1]
+  ("external/barnes_hut_sne/tsne.hpp", "TSNE::computeGaussianPerplexity/8", "$1[%]", 10),  -- row_P[n] | obj_X[n] | distances[m] | indices[m]
   ("external/barnes_hut_sne/tsne.hpp", "TSNE::computeGaussianPerplexity/8", "$1[0]", 4),  -- row_P[0] | indices[0] | distances[0]
   ("external/barnes_hut_sne/tsne.hpp", "TSNE::computeGaussianPerplexity/8", "$1[1]", 2),  -- distances[1]
-  ("external/barnes_hut_sne/tsne.hpp", "TSNE::computeGradient", "$1[$2]", 1),  -- dC[i]
-  ("external/barnes_hut_sne/tsne.hpp", "TSNE::computeSquaredEuclideanDistance", "$1[$2 * $3 + $4]", 1),  -- DD[n * N + m]
-  ("external/barnes_hut_sne/tsne.hpp", "TSNE::evaluateError/4", "$1[$2 * $3 + $4]", 7),  -- Q[n * N + m] | DD[n * N + m] | P[n * N + m]
-  ("external/barnes_hut_sne/tsne.hpp", "TSNE::evaluateError/6", "$1[$2 + $3]", 2),  -- Y[ind1 + d] | Y[ind2 + d]
-  ("external/barnes_hut_sne/tsne.hpp", "TSNE::evaluateError/6", "$1[$2 + 1]", 1),  -- row_P[n + 1]
-  ("external/barnes_hut_sne/tsne.hpp", "TSNE::evaluateError/6", "$1[$2]", 4),  -- row_P[n] | col_P[i] | val_P[i]
-  ("external/barnes_hut_sne/tsne.hpp", "TSNE::run", "$1.data()[$2 * $3 + $4]", 4),  -- P.data()[n * N + m] | P.data()[m * N + n]
-  ("external/barnes_hut_sne/tsne.hpp", "TSNE::run", "$1.data()[$2]", 12),  -- gains.data()[i] | dY.data()[i] | uY.data()[i]
-  ("external/barnes_hut_sne/tsne.hpp", "TSNE::run", "$1[$2]", 11),  -- row_P[N] | val_P[i] | Y[i]
-  ("external/barnes_hut_sne/tsne.hpp", "TSNE::symmetrizeMatrix", "$1[$2 + 1]", 3),  -- row_P[n + 1] | sym_row_P[n + 1]
-  ("external/barnes_hut_sne/tsne.hpp", "TSNE::symmetrizeMatrix", "$1[$2[$3[$4]]+ $5[$3[$4]]]", 4),  -- sym_col_P[sym_row_P[col_P[i]]+ offset[col_P[i]]] | sym_val_P[sym_row_P[col_P[i]]+ offset[col_P[i]]]
-  ("external/barnes_hut_sne/tsne.hpp", "TSNE::symmetrizeMatrix", "$1[$2[$3]+ $4[$3]]", 4),  -- sym_col_P[sym_row_P[n]+ offset[n]] | sym_val_P[sym_row_P[n]+ offset[n]]
-  ("external/barnes_hut_sne/tsne.hpp", "TSNE::symmetrizeMatrix", "$1[$2[$3]+ 1]", 2),  -- row_P[col_P[i]+ 1]
-  ("external/barnes_hut_sne/tsne.hpp", "TSNE::symmetrizeMatrix", "$1[$2[$3]]", 12),  -- row_P[col_P[i]] | row_counts[col_P[i]] | sym_row_P[col_P[i]] | offset[col_P[i]]
-  ("external/barnes_hut_sne/tsne.hpp", "TSNE::symmetrizeMatrix", "$1[$2]", 35),  -- row_P[n] | col_P[i] | col_P[m] | sym_row_P[n] | val_P[i] | val_P[m] | sym_val_P[i]
+  ("external/barnes_hut_sne/tsne.hpp", "TSNE::computeGradient", "$1[%]", 1),  -- dC[i]
+  ("external/barnes_hut_sne/tsne.hpp", "TSNE::computeSquaredEuclideanDistance", "$1[% * $2 + %]", 1),  -- DD[n * N + m]
+  ("external/barnes_hut_sne/tsne.hpp", "TSNE::evaluateError/4", "$1[% * $2 + %]", 7),  -- Q[n * N + m] | DD[n * N + m] | P[n * N + m]
+  ("external/barnes_hut_sne/tsne.hpp", "TSNE::evaluateError/6", "$1[$2 + %]", 2),  -- Y[ind1 + d] | Y[ind2 + d]
+  ("external/barnes_hut_sne/tsne.hpp", "TSNE::evaluateError/6", "$1[% + 1]", 1),  -- row_P[n + 1]
+  ("external/barnes_hut_sne/tsne.hpp", "TSNE::evaluateError/6", "$1[%]", 4),  -- row_P[n] | col_P[i] | val_P[i]
+  ("external/barnes_hut_sne/tsne.hpp", "TSNE::run", "$1.data()[% * $2 + %]", 4),  -- P.data()[n * N + m] | P.data()[m * N + n]
+  ("external/barnes_hut_sne/tsne.hpp", "TSNE::run", "$1.data()[%]", 12),  -- gains.data()[i] | dY.data()[i] | uY.data()[i]
+  ("external/barnes_hut_sne/tsne.hpp", "TSNE::run", "$1[$2]", 4),  -- row_P[N]
+  ("external/barnes_hut_sne/tsne.hpp", "TSNE::run", "$1[%]", 7),  -- val_P[i] | Y[i]
+  ("external/barnes_hut_sne/tsne.hpp", "TSNE::symmetrizeMatrix", "$1[$2[$3[%]]+ $4[$3[%]]]", 4),  -- sym_col_P[sym_row_P[col_P[i]]+ offset[col_P[i]]] | sym_val_P[sym_row_P[col_P[i]]+ offset[col_P[i]]]
+  ("external/barnes_hut_sne/tsne.hpp", "TSNE::symmetrizeMatrix", "$1[$2[%]+ $3[%]]", 4),  -- sym_col_P[sym_row_P[n]+ offset[n]] | sym_val_P[sym_row_P[n]+ offset[n]]
+  ("external/barnes_hut_sne/tsne.hpp", "TSNE::symmetrizeMatrix", "$1[$2[%]+ 1]", 2),  -- row_P[col_P[i]+ 1]
+  ("external/barnes_hut_sne/tsne.hpp", "TSNE::symmetrizeMatrix", "$1[$2[%]]", 12),  -- row_P[col_P[i]] | row_counts[col_P[i]] | sym_row_P[col_P[i]] | offset[col_P[i]]
+  ("external/barnes_hut_sne/tsne.hpp", "TSNE::symmetrizeMatrix", "$1[% + 1]", 3),  -- row_P[n + 1] | sym_row_P[n + 1]
+  ("external/barnes_hut_sne/tsne.hpp", "TSNE::symmetrizeMatrix", "$1[%]", 35),  -- row_P[n] | col_P[i] | col_P[m] | sym_row_P[n] | val_P[i] | val_P[m] | sym_val_P[i]
   ("external/barnes_hut_sne/tsne.hpp", "TSNE::symmetrizeMatrix", "$1[0]", 1),  -- sym_row_P[0]
-  ("external/barnes_hut_sne/tsne.hpp", "TSNE::zeroMean", "$1[$2 * $3 + $4]", 2),  -- X[n * D + d]
-  ("external/barnes_hut_sne/vptree.hpp", "DataPoint::DataPoint/1", "_x[$1]", 1),  -- _x[d]
-  ("external/barnes_hut_sne/vptree.hpp", "DataPoint::DataPoint/3", "$1[$2]", 1),  -- xv[d]
-  ("external/barnes_hut_sne/vptree.hpp", "DataPoint::DataPoint/3", "_x[$1]", 1),  -- _x[d]
-  ("external/barnes_hut_sne/vptree.hpp", "DataPoint::operator=", "_x[$1]", 1),  -- _x[d]
+  ("external/barnes_hut_sne/tsne.hpp", "TSNE::zeroMean", "$1[% * $2 + %]", 2),  -- X[n * D + d]
+  ("external/barnes_hut_sne/vptree.hpp", "DataPoint::DataPoint/1", "_x[%]", 1),  -- _x[d]
+  ("external/barnes_hut_sne/vptree.hpp", "DataPoint::DataPoint/3", "$1[%]", 1),  -- xv[d]
+  ("external/barnes_hut_sne/vptree.hpp", "DataPoint::DataPoint/3", "_x[%]", 1),  -- _x[d]
+  ("external/barnes_hut_sne/vptree.hpp", "DataPoint::operator=", "_x[%]", 1),  -- _x[d]
   ("external/barnes_hut_sne/vptree.hpp", "DataPoint::x", "_x[$1]", 1),  -- _x[d]
   ("external/barnes_hut_sne/vptree.hpp", "VpTree::buildFromPoints", "_items[$1]", 3),  -- _items[lower]
-  ("external/barnes_hut_sne/vptree.hpp", "VpTree::buildFromPoints", "_items[(($1 + $2)/ 2)]", 1),  -- _items[median]
-  ("external/barnes_hut_sne/vptree.hpp", "VpTree::buildFromPoints", "_items[((int)(tapkee::uniform_random()*($1 - $2 - 1))+ $2)]", 1),  -- _items[i]
+  ("external/barnes_hut_sne/vptree.hpp", "VpTree::buildFromPoints", "_items[($1 + $2)/ 2]", 1),  -- _items[median]
+  ("external/barnes_hut_sne/vptree.hpp", "VpTree::buildFromPoints", "_items[(int)(tapkee::uniform_random()*($1 - $2 - 1))+ $2]", 1),  -- _items[i]
   ("external/barnes_hut_sne/vptree.hpp", "VpTree::search/4", "_items[$1->index]", 1),  -- _items[node->index]
   ("external/barnes_hut_sne/vptree.hpp", "VpTree::search/4", "_items[$1.top().index]", 1),  -- _items[heap.top().index]
-  ("methods/diffusion_map.hpp", "DiffusionMapImplementation::embed", "$1.col($2)", 2),  -- embedding.col(i)
-  ("methods/isomap.hpp", "IsomapImplementation::embed", "$1.first.col($2)", 1),  -- embedding.first.col(i)
-  ("methods/isomap.hpp", "IsomapImplementation::embed", "$1.second($2)", 1),  -- embedding.second(i)
-  ("methods/kernel_pca.hpp", "KernelPrincipalComponentAnalysisImplementation::embed", "$1.first.col($2)", 1),  -- embedding.first.col(i)
-  ("methods/kernel_pca.hpp", "KernelPrincipalComponentAnalysisImplementation::embed", "$1.second($2)", 1),  -- embedding.second(i)
-  ("methods/landmark_isomap.hpp", "LandmarkIsomapImplementation::embed", "$1.col($2)", 2),  -- embedding.col(i)
-  ("methods/landmark_isomap.hpp", "LandmarkIsomapImplementation::embed", "$1.second($2)", 2),  -- landmarks_embedding.second(i)
-  ("methods/landmark_multidimensional_scaling.hpp", "LandmarkMultidimensionalScalingImplementation::embed", "$1.first.col($2)", 1),  -- landmarks_embedding.first.col(i)
-  ("methods/landmark_multidimensional_scaling.hpp", "LandmarkMultidimensionalScalingImplementation::embed", "$1.second($2)", 1),  -- landmarks_embedding.second(i)
-  ("methods/multidimensional_scaling.hpp", "MultidimensionalScalingImplementation::embed", "$1.first.col($2)", 1),  -- embedding.first.col(i)
-  ("methods/multidimensional_scaling.hpp", "MultidimensionalScalingImplementation::embed", "$1.second($2)", 1),  -- embedding.second(i)
-  ("neighbors/connected.hpp", "is_connected", "$1[$2[$3][$4]]", 1),  -- backward[neighbor]
-  ("neighbors/connected.hpp", "is_connected", "$1[$2]", 1),  -- neighbors[i]
+  ("methods/diffusion_map.hpp", "DiffusionMapImplementation::embed", "$1.col(%)", 2),  -- embedding.col(i)
+  ("methods/isomap.hpp", "IsomapImplementation::embed", "$1.first.col(%)", 1),  -- embedding.first.col(i)
+  ("methods/isomap.hpp", "IsomapImplementation::embed", "$1.second(%)", 1),  -- embedding.second(i)
+  ("methods/kernel_pca.hpp", "KernelPrincipalComponentAnalysisImplementation::embed", "$1.first.col(%)", 1),  -- embedding.first.col(i)
+  ("methods/kernel_pca.hpp", "KernelPrincipalComponentAnalysisImplementation::embed", "$1.second(%)", 1),  -- embedding.second(i)
+  ("methods/landmark_isomap.hpp", "LandmarkIsomapImplementation::embed", "$1.col(%)", 2),  -- embedding.col(i)
+  ("methods/landmark_isomap.hpp", "LandmarkIsomapImplementation::embed", "$1.second(%)", 2),  -- landmarks_embedding.second(i)
+  ("methods/landmark_multidimensional_scaling.hpp", "LandmarkMultidimensionalScalingImplementation::embed", "$1.first.col(%)", 1),  -- landmarks_embedding.first.col(i)
+  ("methods/landmark_multidimensional_scaling.hpp", "LandmarkMultidimensionalScalingImplementation::embed", "$1.second(%)", 1),  -- landmarks_embedding.second(i)
+  ("methods/multidimensional_scaling.hpp", "MultidimensionalScalingImplementation::embed", "$1.first.col(%)", 1),  -- embedding.first.col(i)
+  ("methods/multidimensional_scaling.hpp", "MultidimensionalScalingImplementation::embed", "$1.second(%)", 1),  -- embedding.second(i)
+  ("neighbors/connected.hpp", "is_connected", "$1[$2[%][%]]", 1),  -- backward[neighbor]
+  ("neighbors/connected.hpp", "is_connected", "$1[%]", 1),  -- neighbors[i]
   ("neighbors/connected.hpp", "is_connected", "$1[0]", 1),  -- neighbors[0]
   ("neighbors/connected.hpp", "reaches_all_from_first", "$1[$2.top()]", 3),  -- visited[current] | edges[current]
-  ("neighbors/connected.hpp", "reaches_all_from_first", "$1[$2[$3.top()][$4]]", 1),  -- visited[neighbor]
+  ("neighbors/connected.hpp", "reaches_all_from_first", "$1[$2[$3.top()][%]]", 1),  -- visited[neighbor]
   ("neighbors/covertree.hpp", "add_height", "$1[$2]", 2),  -- heights[d]
-  ("neighbors/covertree.hpp", "batch_create", "$1[$2]", 2),  -- points[i]
+  ("neighbors/covertree.hpp", "batch_create", "$1[%]", 2),  -- points[i]
   ("neighbors/covertree.hpp", "batch_create", "$1[0]", 2),  -- points[0]
-  ("neighbors/covertree.hpp", "batch_insert", "$1[$2]", 6),  -- new_point_set[i] | new_consumed_set[i]
+  ("neighbors/covertree.hpp", "batch_insert", "$1[%]", 6),  -- new_point_set[i] | new_consumed_set[i]
   ("neighbors/covertree.hpp", "batch_nearest_neighbor", "$1[0]", 1),  -- cover_sets[0]
-  ("neighbors/covertree.hpp", "batch_nearest_neighbor", "spare_cover_sets[$1]", 1),  -- spare_cover_sets[i]
-  ("neighbors/covertree.hpp", "breadth_dist", "$1.children[$2]", 1),  -- top_node.children[i]
+  ("neighbors/covertree.hpp", "batch_nearest_neighbor", "spare_cover_sets[%]", 1),  -- spare_cover_sets[i]
+  ("neighbors/covertree.hpp", "breadth_dist", "$1.children[%]", 1),  -- top_node.children[i]
   ("neighbors/covertree.hpp", "brute_nearest", "$1[0]", 2),  -- upper_bound[0]
   ("neighbors/covertree.hpp", "copy_cover_sets", "$1[$2]", 4),  -- cover_sets[current_scale] | new_cover_sets[current_scale]
   ("neighbors/covertree.hpp", "copy_cover_sets", "$1[0]", 2),  -- new_upper_bound[0]
   ("neighbors/covertree.hpp", "copy_zero_set", "$1[0]", 2),  -- new_upper_bound[0]
-  ("neighbors/covertree.hpp", "depth_dist", "$1.children[$2]", 1),  -- top_node.children[i]
+  ("neighbors/covertree.hpp", "depth_dist", "$1.children[%]", 1),  -- top_node.children[i]
   ("neighbors/covertree.hpp", "descend", "$1[$2]", 3),  -- cover_sets[current_scale]
   ("neighbors/covertree.hpp", "descend", "$1[0]", 3),  -- upper_bound[0]
   ("neighbors/covertree.hpp", "dist_split", "$1[$2++]", 1),  -- point_set[new_index++]
-  ("neighbors/covertree.hpp", "dist_split", "$1[$2]", 4),  -- point_set[i]
-  ("neighbors/covertree.hpp", "height_dist", "$1.children[$2]", 1),  -- top_node.children[i]
+  ("neighbors/covertree.hpp", "dist_split", "$1[%]", 4),  -- point_set[i]
+  ("neighbors/covertree.hpp", "height_dist", "$1.children[%]", 1),  -- top_node.children[i]
   ("neighbors/covertree.hpp", "internal_batch_nearest_neighbor", "$1->children[0]", 1),  -- query->children[0]
   ("neighbors/covertree.hpp", "internal_batch_nearest_neighbor", "$1[$2++]", 1),  -- cover_sets[current_scale++]
   ("neighbors/covertree.hpp", "internal_batch_nearest_neighbor", "$1[$2]", 1),  -- cover_sets[current_scale]
   ("neighbors/covertree.hpp", "internal_batch_nearest_neighbor", "$1[0]", 1),  -- upper_bound[0]
-  ("neighbors/covertree.hpp", "max_set", "$1[$2]", 2),  -- v[i]
-  ("neighbors/covertree.hpp", "set_leaf_scale", "$1.children[$2]", 1),  -- n.children[i]
+  ("neighbors/covertree.hpp", "max_set", "$1[%]", 2),  -- v[i]
+  ("neighbors/covertree.hpp", "set_leaf_scale", "$1.children[%]", 1),  -- n.children[i]
   ("neighbors/covertree.hpp", "split", "$1[$2++]", 1),  -- point_set[new_index++]
-  ("neighbors/covertree.hpp", "split", "$1[$2]", 3),  -- point_set[i]
+  ("neighbors/covertree.hpp", "split", "$1[%]", 3),  -- point_set[i]
   ("neighbors/covertree_point.hpp", "pop", "$1[--$1.index]", 1),  -- stack[--stack.index]
   ("neighbors/covertree_point.hpp", "push", "$1[$1.index++]", 1),  -- v[v.index++]
   ("neighbors/covertree_point.hpp", "v_array::last", "elements[index - 1]", 1),  -- elements[index - 1]
   ("neighbors/covertree_point.hpp", "v_array::operator[]", "elements[$1]", 1),  -- elements[i]
   ("neighbors/neighbors.hpp", "find_neighbors_covertree_impl", "$1[$2 - $3]", 1),  -- neighbors[query - begin]
-  ("neighbors/neighbors.hpp", "find_neighbors_covertree_impl", "$1[$2]", 7),  -- res[i] | candidates[j]
-  ("neighbors/neighbors.hpp", "find_neighbors_covertree_impl", "$1[$2][$3]", 3),  -- res[i][j]
-  ("neighbors/neighbors.hpp", "find_neighbors_covertree_impl", "$1[$2][0]", 1),  -- res[i][0]
+  ("neighbors/neighbors.hpp", "find_neighbors_covertree_impl", "$1[%]", 7),  -- res[i] | candidates[j]
+  ("neighbors/neighbors.hpp", "find_neighbors_covertree_impl", "$1[%][%]", 3),  -- res[i][j]
+  ("neighbors/neighbors.hpp", "find_neighbors_covertree_impl", "$1[%][0]", 1),  -- res[i][0]
   ("neighbors/vptree.hpp", "VantagePointTree::buildFromPoints", "items[$1]", 3),  -- items[lower]
-  ("neighbors/vptree.hpp", "VantagePointTree::buildFromPoints", "items[(($1 + $2)/ 2)]", 1),  -- items[median]
-  ("neighbors/vptree.hpp", "VantagePointTree::buildFromPoints", "items[((int)(next_vantage_fraction()*($1 - $2 - 1))+ $2)]", 1),  -- items[i]
+  ("neighbors/vptree.hpp", "VantagePointTree::buildFromPoints", "items[($1 + $2)/ 2]", 1),  -- items[median]
+  ("neighbors/vptree.hpp", "VantagePointTree::buildFromPoints", "items[(int)(next_vantage_fraction()*($1 - $2 - 1))+ $2]", 1),  -- items[i]
   ("neighbors/vptree.hpp", "VantagePointTree::search/2", "items[$1.top().index]", 1),  -- items[heap.top().index]
   ("neighbors/vptree.hpp", "VantagePointTree::search/4", "items[$1->index]", 1),  -- items[node->index]
-  ("routines/diffusion_maps.hpp", "compute_diffusion_matrix", "$1($2)", 4),  -- p(i) | p(j)
+  ("routines/diffusion_maps.hpp", "compute_diffusion_matrix", "$1(%)", 4),  -- p(i) | p(j)
   ("routines/eigendecomposition.hpp", "eigendecomposition_impl_arpack", "$1.eigenvalues().tail($2)", 1),  -- arpack.eigenvalues().tail(target_dimension)
   ("routines/eigendecomposition.hpp", "eigendecomposition_impl_arpack", "$1.eigenvectors().rightCols($2)", 1),  -- arpack.eigenvectors().rightCols(target_dimension)
-  ("routines/eigendecomposition.hpp", "eigendecomposition_impl_randomized", "$1.col($2)", 1),  -- O.col(i)
-  ("routines/fa.hpp", "project", "$1.col($2 - $3)", 1),  -- X.col(iter - begin)
+  ("routines/eigendecomposition.hpp", "eigendecomposition_impl_randomized", "$1.col(%)", 1),  -- O.col(i)
+  ("routines/fa.hpp", "project", "$1.col(% - $2)", 1),  -- X.col(iter - begin)
   ("routines/generalized_eigendecomposition.hpp", "generalized_eigendecomposition_impl_arpack", "$1.eigenvalues().tail($2)", 1),  -- arpack.eigenvalues().tail(target_dimension)
   ("routines/generalized_eigendecomposition.hpp", "generalized_eigendecomposition_impl_arpack", "($1.eigenvectors()).rightCols($2)", 1),  -- (arpack.eigenvectors()).rightCols(target_dimension)
-  ("routines/isomap.hpp", "compute_shortest_distances_matrix/4", "$1($2, $3)", 2),  -- shortest_distances(k, min_item)
-  ("routines/isomap.hpp", "compute_shortest_distances_matrix/4", "$1($2, $3[$4][$5])", 2),  -- shortest_distances(k, w)
-  ("routines/isomap.hpp", "compute_shortest_distances_matrix/4", "$1[$2[$3][$4]]", 5),  -- s[w] | begin[w] | f[w]
+  ("routines/isomap.hpp", "compute_shortest_distances_matrix/4", "$1(%, $2)", 2),  -- shortest_distances(k, min_item)
+  ("routines/isomap.hpp", "compute_shortest_distances_matrix/4", "$1(%, $2[$3][%])", 2),  -- shortest_distances(k, w)
+  ("routines/isomap.hpp", "compute_shortest_distances_matrix/4", "$1[$2[$3][%]]", 5),  -- s[w] | begin[w] | f[w]
   ("routines/isomap.hpp", "compute_shortest_distances_matrix/4", "$1[$2]", 4),  -- s[min_item] | f[min_item] | neighbors[min_item] | begin[min_item]
   ("routines/isomap.hpp", "compute_shortest_distances_matrix/4", "$1[0]", 1),  -- neighbors[0]
-  ("routines/isomap.hpp", "compute_shortest_distances_matrix/5", "$1($2, $3)", 2),  -- shortest_distances(k, min_item)
-  ("routines/isomap.hpp", "compute_shortest_distances_matrix/5", "$1($2, $3[$2])", 1),  -- shortest_distances(k, landmarks[k])
-  ("routines/isomap.hpp", "compute_shortest_distances_matrix/5", "$1($2, $3[$4][$5])", 2),  -- shortest_distances(k, w)
-  ("routines/isomap.hpp", "compute_shortest_distances_matrix/5", "$1[$2[$3][$4]]", 5),  -- s[w] | begin[w] | f[w]
-  ("routines/isomap.hpp", "compute_shortest_distances_matrix/5", "$1[$2[$3]]", 1),  -- f[landmarks[k]]
+  ("routines/isomap.hpp", "compute_shortest_distances_matrix/5", "$1(%, $2)", 2),  -- shortest_distances(k, min_item)
+  ("routines/isomap.hpp", "compute_shortest_distances_matrix/5", "$1(%, $2[$3][%])", 2),  -- shortest_distances(k, w)
+  ("routines/isomap.hpp", "compute_shortest_distances_matrix/5", "$1(%, $2[%])", 1),  -- shortest_distances(k, landmarks[k])
+  ("routines/isomap.hpp", "compute_shortest_distances_matrix/5", "$1[$2[$3][%]]", 5),  -- s[w] | begin[w] | f[w]
+  ("routines/isomap.hpp", "compute_shortest_distances_matrix/5", "$1[$2[%]]", 1),  -- f[landmarks[k]]
   ("routines/isomap.hpp", "compute_shortest_distances_matrix/5", "$1[$2]", 4),  -- s[min_item] | f[min_item] | neighbors[min_item] | begin[min_item]
   ("routines/isomap.hpp", "compute_shortest_distances_matrix/5", "$1[0]", 1),  -- neighbors[0]
-  ("routines/landmarks.hpp", "triangulate", "$1.row($2[$3])", 1),  -- embedding.row(landmarks[index_iter])
-  ("routines/landmarks.hpp", "triangulate", "$1[$2[$3]]", 2),  -- to_process[landmarks[index_iter]] | begin[landmarks[i]]
-  ("routines/laplacian_eigenmaps.hpp", "compute_laplacian", "$1($2 - $3)", 1),  -- D(iter - begin)
-  ("routines/laplacian_eigenmaps.hpp", "compute_laplacian", "$1($2[$3 - $4][$5])", 1),  -- D(current_neighbors[i])
-  ("routines/laplacian_eigenmaps.hpp", "compute_laplacian", "$1.coeffRef($2->col(), $2->row())", 1),  -- dynamic_weight_matrix.coeffRef(it->col(), it->row())
-  ("routines/laplacian_eigenmaps.hpp", "compute_laplacian", "$1[$2 - $3]", 1),  -- neighbors[iter - begin]
-  ("routines/laplacian_eigenmaps.hpp", "compute_laplacian", "$1[$2[$3 - $1][$4]]", 1),  -- begin[current_neighbors[i]]
+  ("routines/landmarks.hpp", "triangulate", "$1.row($2[%])", 1),  -- embedding.row(landmarks[index_iter])
+  ("routines/landmarks.hpp", "triangulate", "$1[$2[%]]", 2),  -- to_process[landmarks[index_iter]] | begin[landmarks[i]]
+  ("routines/laplacian_eigenmaps.hpp", "compute_laplacian", "$1($2[% - $3][%])", 1),  -- D(current_neighbors[i])
+  ("routines/laplacian_eigenmaps.hpp", "compute_laplacian", "$1(% - $2)", 1),  -- D(iter - begin)
+  ("routines/laplacian_eigenmaps.hpp", "compute_laplacian", "$1.coeffRef(%->col(), %->row())", 1),  -- dynamic_weight_matrix.coeffRef(it->col(), it->row())
+  ("routines/laplacian_eigenmaps.hpp", "compute_laplacian", "$1[$2[% - $1][%]]", 1),  -- begin[current_neighbors[i]]
+  ("routines/laplacian_eigenmaps.hpp", "compute_laplacian", "$1[% - $2]", 1),  -- neighbors[iter - begin]
   ("routines/laplacian_eigenmaps.hpp", "compute_laplacian", "$1[0]", 1),  -- neighbors[0]
   ("routines/laplacian_eigenmaps.hpp", "construct_locality_preserving_eigenproblem", "$1[$2.col()]", 1),  -- begin[it.col()]
   ("routines/laplacian_eigenmaps.hpp", "construct_locality_preserving_eigenproblem", "$1[$2.row()]", 1),  -- begin[it.row()]
-  ("routines/locally_linear.hpp", "construct_lltsa_eigenproblem", "$1($2 - $3)", 1),  -- w_ones(iter - begin)
+  ("routines/locally_linear.hpp", "construct_lltsa_eigenproblem", "$1(% - $2)", 1),  -- w_ones(iter - begin)
   ("routines/locally_linear.hpp", "construct_lltsa_eigenproblem", "$1[$2.col()]", 1),  -- begin[it.col()]
   ("routines/locally_linear.hpp", "construct_lltsa_eigenproblem", "$1[$2.row()]", 1),  -- begin[it.row()]
   ("routines/locally_linear.hpp", "construct_neighborhood_preserving_eigenproblem", "$1[$2.col()]", 1),  -- begin[it.col()]
   ("routines/locally_linear.hpp", "construct_neighborhood_preserving_eigenproblem", "$1[$2.row()]", 1),  -- begin[it.row()]
-  ("routines/locally_linear.hpp", "hessian_weight_matrix", "$1($2, $3)", 3),  -- gram_matrix(i, j) | gram_matrix(j, i)
+  ("routines/locally_linear.hpp", "hessian_weight_matrix", "$1(%, %)", 3),  -- gram_matrix(i, j) | gram_matrix(j, i)
   ("routines/locally_linear.hpp", "hessian_weight_matrix", "$1.col(0)", 1),  -- Yi.col(0)
-  ("routines/locally_linear.hpp", "hessian_weight_matrix", "$1[$2[$3][$4]]", 2),  -- begin[current_neighbors[i]] | begin[current_neighbors[j]]
-  ("routines/locally_linear.hpp", "hessian_weight_matrix", "$1[$2]", 1),  -- neighbors[index_iter]
+  ("routines/locally_linear.hpp", "hessian_weight_matrix", "$1[$2[%][%]]", 2),  -- begin[current_neighbors[i]] | begin[current_neighbors[j]]
+  ("routines/locally_linear.hpp", "hessian_weight_matrix", "$1[%]", 1),  -- neighbors[index_iter]
   ("routines/locally_linear.hpp", "hessian_weight_matrix", "$1[0]", 1),  -- neighbors[0]
-  ("routines/locally_linear.hpp", "linear_weight_matrix", "$1($2)", 2),  -- weights(i) | weights(j)
-  ("routines/locally_linear.hpp", "linear_weight_matrix", "$1[$2[$3][$4]]", 3),  -- begin[current_neighbors[i]] | begin[current_neighbors[j]]
-  ("routines/locally_linear.hpp", "linear_weight_matrix", "$1[$2]", 3),  -- neighbors[index_iter] | weights[i]
+  ("routines/locally_linear.hpp", "linear_weight_matrix", "$1(%)", 2),  -- weights(i) | weights(j)
+  ("routines/locally_linear.hpp", "linear_weight_matrix", "$1[$2[%][%]]", 3),  -- begin[current_neighbors[i]] | begin[current_neighbors[j]]
+  ("routines/locally_linear.hpp", "linear_weight_matrix", "$1[%]", 3),  -- neighbors[index_iter] | weights[i]
   ("routines/locally_linear.hpp", "linear_weight_matrix", "$1[0]", 1),  -- neighbors[0]
-  ("routines/locally_linear.hpp", "tangent_weight_matrix", "$1($2, $3)", 3),  -- gram_matrix(i, j) | gram_matrix(j, i)
+  ("routines/locally_linear.hpp", "tangent_weight_matrix", "$1(%, %)", 3),  -- gram_matrix(i, j) | gram_matrix(j, i)
   ("routines/locally_linear.hpp", "tangent_weight_matrix", "$1.col(0)", 1),  -- G.col(0)
-  ("routines/locally_linear.hpp", "tangent_weight_matrix", "$1[$2[$3][$4]]", 2),  -- begin[current_neighbors[i]] | begin[current_neighbors[j]]
-  ("routines/locally_linear.hpp", "tangent_weight_matrix", "$1[$2]", 1),  -- neighbors[index_iter]
+  ("routines/locally_linear.hpp", "tangent_weight_matrix", "$1[$2[%][%]]", 2),  -- begin[current_neighbors[i]] | begin[current_neighbors[j]]
+  ("routines/locally_linear.hpp", "tangent_weight_matrix", "$1[%]", 1),  -- neighbors[index_iter]
   ("routines/locally_linear.hpp", "tangent_weight_matrix", "$1[0]", 1),  -- neighbors[0]
-  ("routines/manifold_sculpting.hpp", "angles_matrix_and_neighbors", "$1.col($2[$3][$4])", 2),  -- data.col(current_neighbors[j])
-  ("routines/manifold_sculpting.hpp", "angles_matrix_and_neighbors", "$1.col(($2[$2[$3][$4]])[$5])", 1),  -- data.col(neighbors_of_neighbor[l])
-  ("routines/manifold_sculpting.hpp", "angles_matrix_and_neighbors", "$1[$1[$2][$3]]", 1),  -- neighbors[current_neighbors[j]]
-  ("routines/manifold_sculpting.hpp", "angles_matrix_and_neighbors", "$1[$2]", 3),  -- neighbors[i] | most_collinear_current_neighbors[j]
+  ("routines/manifold_sculpting.hpp", "angles_matrix_and_neighbors", "$1.col($2[%][%])", 2),  -- data.col(current_neighbors[j])
+  ("routines/manifold_sculpting.hpp", "angles_matrix_and_neighbors", "$1.col(($2[$2[%][%]])[%])", 1),  -- data.col(neighbors_of_neighbor[l])
+  ("routines/manifold_sculpting.hpp", "angles_matrix_and_neighbors", "$1[$1[%][%]]", 1),  -- neighbors[current_neighbors[j]]
+  ("routines/manifold_sculpting.hpp", "angles_matrix_and_neighbors", "$1[%]", 3),  -- neighbors[i] | most_collinear_current_neighbors[j]
   ("routines/manifold_sculpting.hpp", "angles_matrix_and_neighbors", "$1[0]", 1),  -- neighbors[0]
-  ("routines/manifold_sculpting.hpp", "average_neighbor_distance", "$1.col($2[$3][$4])", 1),  -- data.col(neighbors[i][j])
-  ("routines/manifold_sculpting.hpp", "average_neighbor_distance", "$1[$2]", 1),  -- neighbors[i]
+  ("routines/manifold_sculpting.hpp", "average_neighbor_distance", "$1.col($2[%][%])", 1),  -- data.col(neighbors[i][j])
+  ("routines/manifold_sculpting.hpp", "average_neighbor_distance", "$1[%]", 1),  -- neighbors[i]
   ("routines/manifold_sculpting.hpp", "average_neighbor_distance", "$1[0]", 1),  -- neighbors[0]
   ("routines/manifold_sculpting.hpp", "compute_error_for_point", "$1.angle_neighbors[$2]", 1),  -- error_func_data.angle_neighbors[index]
-  ("routines/manifold_sculpting.hpp", "compute_error_for_point", "$1.angle_neighbors[$2][$3]", 1),  -- error_func_data.angle_neighbors[index][i]
-  ("routines/manifold_sculpting.hpp", "compute_error_for_point", "$1.angles_matrix.coeff($2, $1.angle_neighbors[$2][$3])", 1),  -- error_func_data.angles_matrix.coeff(index, neighbor_of_neighbor)
+  ("routines/manifold_sculpting.hpp", "compute_error_for_point", "$1.angle_neighbors[$2][%]", 1),  -- error_func_data.angle_neighbors[index][i]
+  ("routines/manifold_sculpting.hpp", "compute_error_for_point", "$1.angles_matrix.coeff($2, $1.angle_neighbors[$2][%])", 1),  -- error_func_data.angles_matrix.coeff(index, neighbor_of_neighbor)
   ("routines/manifold_sculpting.hpp", "compute_error_for_point", "$1.col($2)", 2),  -- data.col(index)
-  ("routines/manifold_sculpting.hpp", "compute_error_for_point", "$1.col($2.angle_neighbors[$3][$4])", 1),  -- data.col(neighbor_of_neighbor)
-  ("routines/manifold_sculpting.hpp", "compute_error_for_point", "$1.col($2.distance_neighbors[$3][$4])", 3),  -- data.col(neighbor)
-  ("routines/manifold_sculpting.hpp", "compute_error_for_point", "$1.distance_matrix.coeff($2, $1.distance_neighbors[$2][$3])", 1),  -- error_func_data.distance_matrix.coeff(index, neighbor)
+  ("routines/manifold_sculpting.hpp", "compute_error_for_point", "$1.col($2.angle_neighbors[$3][%])", 1),  -- data.col(neighbor_of_neighbor)
+  ("routines/manifold_sculpting.hpp", "compute_error_for_point", "$1.col($2.distance_neighbors[$3][%])", 3),  -- data.col(neighbor)
+  ("routines/manifold_sculpting.hpp", "compute_error_for_point", "$1.distance_matrix.coeff($2, $1.distance_neighbors[$2][%])", 1),  -- error_func_data.distance_matrix.coeff(index, neighbor)
   ("routines/manifold_sculpting.hpp", "compute_error_for_point", "$1.distance_neighbors[$2]", 1),  -- error_func_data.distance_neighbors[index]
-  ("routines/manifold_sculpting.hpp", "compute_error_for_point", "$1.distance_neighbors[$2][$3]", 1),  -- error_func_data.distance_neighbors[index][i]
+  ("routines/manifold_sculpting.hpp", "compute_error_for_point", "$1.distance_neighbors[$2][%]", 1),  -- error_func_data.distance_neighbors[index][i]
   ("routines/manifold_sculpting.hpp", "compute_error_for_point", "$1.distance_neighbors[0]", 1),  -- error_func_data.distance_neighbors[0]
   ("routines/manifold_sculpting.hpp", "manifold_sculpting_embed", "$1[$2.front()]", 2),  -- neighbors[current_point_index]
-  ("routines/manifold_sculpting.hpp", "neighbors_distances_matrix", "$1[$2[$3][$4]]", 1),  -- begin[current_neighbors[j]]
-  ("routines/manifold_sculpting.hpp", "neighbors_distances_matrix", "$1[$2]", 1),  -- begin[i]
+  ("routines/manifold_sculpting.hpp", "neighbors_distances_matrix", "$1[$2[%][%]]", 1),  -- begin[current_neighbors[j]]
+  ("routines/manifold_sculpting.hpp", "neighbors_distances_matrix", "$1[%]", 1),  -- begin[i]
   ("routines/manifold_sculpting.hpp", "neighbors_distances_matrix", "$1[0]", 1),  -- neighbors[0]
-  ("routines/multidimensional_scaling.hpp", "compute_distance_matrix/4", "$1[$2[$3]]", 2),  -- begin[landmarks[i_index_iter]] | begin[landmarks[j_index_iter]]
-  ("routines/pca.hpp", "compute_centered_kernel_matrix", "$1($2 - $3, $4 - $3)", 2),  -- kernel_matrix(i_iter - begin, j_iter - begin) | kernel_matrix(j_iter - begin, i_iter - begin)
-  ("routines/pca.hpp", "project", "$1.row($2 - $3)", 1),  -- embedding.row(iter - begin)
-  ("routines/spe.hpp", "spe_embedding", "$1.col($2)", 3),  -- Yd.col(j)
+  ("routines/multidimensional_scaling.hpp", "compute_distance_matrix/4", "$1[$2[%]]", 2),  -- begin[landmarks[i_index_iter]] | begin[landmarks[j_index_iter]]
+  ("routines/pca.hpp", "compute_centered_kernel_matrix", "$1(% - $2, % - $2)", 2),  -- kernel_matrix(i_iter - begin, j_iter - begin) | kernel_matrix(j_iter - begin, i_iter - begin)
+  ("routines/pca.hpp", "project", "$1.row(% - $2)", 1),  -- embedding.row(iter - begin)
+  ("routines/spe.hpp", "spe_embedding", "$1.col(%)", 3),  -- Yd.col(j)
   ("routines/spe.hpp", "spe_embedding", "$1.col(*$2)", 6),  -- Y.col(*ind1) | Y.col(*ind2)
-  ("routines/spe.hpp", "spe_embedding", "$1[$2]", 5),  -- partners[j] | D[j] | Rt[j] | scale[j]
+  ("routines/spe.hpp", "spe_embedding", "$1[%]", 5),  -- partners[j] | D[j] | Rt[j] | scale[j]
   ("routines/spe.hpp", "spe_embedding", "$1[*$2++]", 1),  -- neighbors[*ind1++]
-  ("routines/spe.hpp", "spe_embedding", "$1[*$2++][$3]", 1),  -- current_neighbors[kk]
+  ("routines/spe.hpp", "spe_embedding", "$1[*$2++][%]", 1),  -- current_neighbors[kk]
   ("routines/spe.hpp", "spe_embedding", "$1[0]", 1),  -- neighbors[0]
-  ("utils/arpack_wrapper.hpp", "compute/6", "$1[$2 * $3 + $4]", 1),  -- v[i * n + j]
+  ("utils/arpack_wrapper.hpp", "compute/6", "$1[% * $2 + %]", 1),  -- v[i * n + j]
   ("utils/arpack_wrapper.hpp", "compute/6", "$1[0]", 12),  -- eigs_sigma[0] | whch[0] | bmat[0] | iparam[0] | ipntr[0]
   ("utils/arpack_wrapper.hpp", "compute/6", "$1[1]", 9),  -- eigs_sigma[1] | whch[1] | ipntr[1]
   ("utils/arpack_wrapper.hpp", "compute/6", "$1[2]", 4),  -- iparam[2] | ipntr[2]
   ("utils/arpack_wrapper.hpp", "compute/6", "$1[4]", 1),  -- iparam[4]
   ("utils/arpack_wrapper.hpp", "compute/6", "$1[6]", 1),  -- iparam[6]
-  ("utils/features.hpp", "dense_matrix_from_features", "$1.col($2 - $3)", 1),  -- matrix.col(iter - begin)
+  ("utils/features.hpp", "dense_matrix_from_features", "$1.col(% - $2)", 1),  -- matrix.col(iter - begin)
   ("utils/fibonacci_heap.hpp", "fibonacci_heap::clear_node", "nodes[$1]", 8),  -- nodes[index]
-  ("utils/fibonacci_heap.hpp", "fibonacci_heap::consolidate", "A[$1]", 8),  -- A[i] | A[d]
+  ("utils/fibonacci_heap.hpp", "fibonacci_heap::consolidate", "A[$1]", 4),  -- A[d]
+  ("utils/fibonacci_heap.hpp", "fibonacci_heap::consolidate", "A[%]", 4),  -- A[i]
   ("utils/fibonacci_heap.hpp", "fibonacci_heap::decrease_key", "nodes[$1]", 8),  -- nodes[index]
-  ("utils/fibonacci_heap.hpp", "fibonacci_heap::fibonacci_heap", "A[$1]", 1),  -- A[i]
-  ("utils/fibonacci_heap.hpp", "fibonacci_heap::fibonacci_heap", "nodes[$1]", 1),  -- nodes[i]
+  ("utils/fibonacci_heap.hpp", "fibonacci_heap::fibonacci_heap", "A[%]", 1),  -- A[i]
+  ("utils/fibonacci_heap.hpp", "fibonacci_heap::fibonacci_heap", "nodes[%]", 1),  -- nodes[i]
   ("utils/fibonacci_heap.hpp", "fibonacci_heap::get_key", "nodes[$1]", 3),  -- nodes[index]
   ("utils/fibonacci_heap.hpp", "fibonacci_heap::insert", "nodes[$1]", 8),  -- nodes[index]
-  ("utils/fibonacci_heap.hpp", "fibonacci_heap::~fibonacci_heap", "nodes[$1]", 1),  -- nodes[i]
-  ("utils/sparse.hpp", "sparse_matrix_from_triplets", "$1.coeffRef($2->col(), $2->row())", 1)  -- dynamic_weight_matrix.coeffRef(it->col(), it->row())
+  ("utils/fibonacci_heap.hpp", "fibonacci_heap::~fibonacci_heap", "nodes[%]", 1),  -- nodes[i]
+  ("utils/sparse.hpp", "sparse_matrix_from_triplets", "$1.coeffRef(%->col(), %->row())", 1)  -- dynamic_weight_matrix.coeffRef(it->col(), it->row())
 ]
 
 /-- THE PIN: every `sweepOnly` row of the regenerated inventory is an accepted row (same file, function and normal
